@@ -374,3 +374,27 @@ func ECDH(Q Point, d *big.Int) (Point, bool) {
 	}
 	return S, true
 }
+
+// cbrtExp = (p+2)/9: p ≡ 7 (mod 9), so a^((p+2)/9) is a cube root of a whenever a is a cubic residue.
+var cbrtExp = new(big.Int).Div(new(big.Int).Add(P, big.NewInt(2)), big.NewInt(9))
+
+// LiftY returns a point with the given y (0 <= y < p), if y^2-7 is a cubic residue.
+func LiftY(y *big.Int) (Point, bool) {
+	if y.Sign() < 0 || y.Cmp(P) >= 0 {
+		return Point{}, false
+	}
+	c := new(big.Int).Mul(y, y)
+	c.Sub(c, B)
+	mod(c)
+	x := new(big.Int).Exp(c, cbrtExp, P)
+	x3 := new(big.Int).Mul(x, x)
+	x3.Mul(x3, x)
+	if mod(x3).Cmp(c) != 0 {
+		return Point{}, false
+	}
+	pt := Point{X: x, Y: new(big.Int).Set(y)}
+	if !OnCurve(pt) {
+		return Point{}, false
+	}
+	return pt, true
+}
